@@ -215,7 +215,7 @@ def gen_tune(rng, tuner=None):
     n = rng.choice([13, 31, 64, 101])
     table = [float(rng.range(0, 9)) / 4.0 if rng.chance(0.3) else rng.uniform(0.0, 5.0) for _ in range(n)]
     if rng.chance(0.06):
-        table[rng.below(n)] = rng.choice([float("nan"), float("inf")])
+        table[rng.below(n)] = float("inf")   # (no nan: std::nth_element needs a strict weak order, percentiles are C20)
     A, B, C, D, E = [rng.range(1, 97) for _ in range(5)]
     return (f"tuner tune {tuner} {rng.choice([10, 10, 12, 20, 33])} {folds} {rng.range(0, 1024)} {rng.range(0, 50)} {nsamples} "
             f"{spaces_str(spaces)} {A} {B} {C} {D} {E} {fl(table)}")
